@@ -40,8 +40,27 @@ def canon(row, n, mirrored):
             tuple((p.reference.siteId, qn(p.query.siteId)) for p in row.alignedPairs), row.cigarString)
 
 
+def has_equidistant_tie(maxd, rpos, qpos, peaks):
+    """the property's precondition: no label has two partners at exactly the same distance within maxDistance under any seed peak"""
+    for p in peaks:
+        for r in rpos:
+            d = [abs(q - (r - p)) for q in qpos if abs(q - (r - p)) <= maxd]
+            if len(set(d)) < len(d):
+                return True
+        for q in qpos:
+            d = [abs(q - (r - p)) for r in rpos if abs(q - (r - p)) <= maxd]
+            if len(set(d)) < len(d):
+                return True
+    return False
+
+
 @core.guarded(lambda cfg, maxd, rpos, qpos, peaks, *a: dict(config=list(cfg), maxDistance=maxd, reference=rpos, query=qpos, peaks=peaks))
 def check_case(cfg, maxd, rpos, qpos, peaks, acc, aligner=None):
+    if has_equidistant_tie(maxd, rpos, qpos, peaks):
+        if acc is not None:
+            acc.evals += 1
+            acc.classes['skipped:equidistant-tie(outside-precondition)'] += 1
+        return []
     al = aligner or make_aligner(maxd, *cfg)
     ref = OpticalMap(1, rpos[-1] + STEP, rpos)
     q = OpticalMap(2, qpos[-1] + 1, qpos)
